@@ -174,7 +174,7 @@ thread_local! {
 }
 
 pub fn tid() -> u64 {
-    TID.with(|t| *t)
+    TID.try_with(|t| *t).unwrap_or(0)
 }
 
 fn push(epoch: u64, tracer: u32, ev: Ev) {
